@@ -85,6 +85,21 @@ def family_redecl():
                      A.while_(B("<", V("i"), V("n")), A.block([A.estmt(A.casg("+", V("acc"), A.call("h", [V("i")]))), step])), A.ret(V("acc"))]), True)]
             prog = A.prog([], funcs, [S] if kn.startswith("struct") else [])
             out.append((prog, [({"n": A.enc(n, A.INT)}, {}) for n in (1, 2, 4)]))
+    # whole arrays and structures assigned and initialised from one another: the copy is independent of its source
+    arr3 = A.arr(A.INT, [3])
+    for kn, ty, el in (("arr", arr3, lambda v: A.idx(V(v), L(1))), ("struct", S, lambda v: A.mem(V(v), "a")), ("arr2", A.arr(A.INT, [2, 2]), lambda v: A.idx(A.idx(V(v), L(1)), L(0)))):
+        for how in ("assign", "init", "chain", "back"):
+            stmts = [A.decl("s", ty), A.estmt(A.asg(el("s"), V("n")))]
+            if how == "assign":
+                stmts += [A.decl("d", ty), A.estmt(A.asg(V("d"), V("s"))), A.estmt(A.asg(el("d"), L(50)))]
+            elif how == "init":
+                stmts += [A.decl("d", ty, V("s")), A.estmt(A.casg("+", el("d"), L(7)))]
+            elif how == "chain":
+                stmts += [A.decl("d", ty), A.decl("e", ty), A.estmt(A.asg(V("d"), V("s"))), A.estmt(A.asg(V("e"), V("d"))), A.estmt(A.asg(el("e"), L(9))), A.estmt(A.asg(el("s"), B("+", el("s"), el("e"))))]
+            else:
+                stmts += [A.decl("d", ty), A.estmt(A.asg(V("d"), V("s"))), A.estmt(A.asg(el("s"), L(3))), A.estmt(A.asg(V("s"), V("d"))), A.estmt(A.asg(el("d"), L(4)))]
+            stmts.append(A.ret(B("+", B("*", el("s"), L(100)), el("d"))))
+            out.append((A.prog([], [A.func("f", [("n", A.INT)], A.FLOAT, A.block(stmts), True)], [S] if kn == "struct" else []), [({"n": A.enc(n, A.INT)}, {}) for n in (1, 6)]))
     return out
 
 
